@@ -215,6 +215,15 @@ def run_unit(unit, repo, vfdir, scratch, rlimit=None, keep=False, extra_args=())
     functions reduced to signature + contract (external_body): their own obligations become undecided, the
     rest of the unit is still decided."""
     res = _run_unit_once(unit, repo, vfdir, scratch, rlimit, keep, extra_args)
+    if res.status == "undecided" and res.reason.startswith("resource limit") and rlimit is None:
+        # the solver ran out of its default budget (typical for a clause that is now FALSE: Z3 searches instead of refuting).
+        # Give it more before giving up: a longer search can only turn "undecided" into a decision.
+        for bigger in (40, 160):
+            res_b = _run_unit_once(unit, repo, vfdir, scratch, bigger, keep, extra_args)
+            if not (res_b.status == "undecided" and res_b.reason.startswith("resource limit")):
+                res_b.rlimit_used = bigger
+                res = res_b
+                break
     if res.status != "undecided" or not getattr(res, "hard_lines", None):
         return res
     stub = set()
